@@ -196,10 +196,10 @@ Section Special.
             else nr_loop fuel' s' eps xk' lower xk' dx' dx f' df'
       end.
 
-    (* [at_end] selects what is returned when the root is found at a bracket end:
-       false = the code as it is (the FUNCTION value fl / fu), true = the proposed repair
-       (x_min / x_max).  The faithful model is [nr_get_root false]. *)
-    Definition nr_get_root_n (fuel : nat) (fixed : bool) (s : state) (x_min x_max eps : V) : res (state * V * V) :=
+    (* a root found at a bracket end (|fn| < epsilon there) is returned as `lower` / `upper`, i.e. x_min / x_max
+       (before the repair "fix: implicit() returned the function value ..." the FUNCTION value fl / fu was
+       returned; finding C20-implicit-end, now a regression test) *)
+    Definition nr_get_root_n (fuel : nat) (s : state) (x_min x_max eps : V) : res (state * V * V) :=
       if leb N x_max x_min then Err RuntimeError else
       '(s1, x1, r1) <- probe s x_min ;;
       let fl := val_of r1 in
@@ -207,12 +207,12 @@ Section Special.
       | OpdN _ => Err AssertionError
       | OpdU _ =>
         if ltb N (nabs N fl) eps then
-          d <- sens_of s1 r1 x1 ;; Ok (s1, (if fixed then x_min else fl), d)
+          d <- sens_of s1 r1 x1 ;; Ok (s1, x_min, d)
         else
         '(s2, x2, r2) <- probe s1 x_max ;;
         let fu := val_of r2 in
         if ltb N (nabs N fu) eps then
-          d <- sens_of s2 r2 x2 ;; Ok (s2, (if fixed then x_max else fu), d)
+          d <- sens_of s2 r2 x2 ;; Ok (s2, x_max, d)
         else
         if leb N (zero N) (mul N fl fu) then Err RuntimeError else
         let lower := if ltb N (zero N) fl then x_max else x_min in
@@ -236,12 +236,10 @@ Section Special.
       | OpdU oy => Ok (new_un N xk (scale (uc oy) dx) (scale (dc oy) dx) (scale (ic oy) dx))
       end.
 
-    Definition implicit_gen (fixed : bool) (s : state) (x_min x_max eps : V) : res (state * ureal) :=
-      '(s', xk, dy_dx) <- nr_get_root fixed s x_min x_max eps ;;
+    Definition implicit_real (s : state) (x_min x_max eps : V) : res (state * ureal) :=
+      '(s', xk, dy_dx) <- nr_get_root s x_min x_max eps ;;
       o <- finish_implicit xk dy_dx ;;
       Ok (s', o).
-
-    Definition implicit_real := implicit_gen false.
   End Implicit.
 
   (* fn given as an expression tree over the argument (slot 0) and captured objects (slots 1..) *)
